@@ -67,7 +67,9 @@ impl Block {
             .binary_search_by(|line_change: &LineChange| {
                 if Self::intersects_with_line_change(&self.content_position_range, line_change) {
                     Ordering::Equal
-                } else if line_change.line < self.content_position_range.start.line {
+                } else if line_change.line <= self.content_position_range.start.line {
+                    // A non-intersecting change in the first line of the content (e.g. in the start
+                    // tag) precedes the content.
                     Ordering::Less
                 } else {
                     Ordering::Greater
@@ -87,7 +89,9 @@ impl Block {
                     line_change,
                 ) {
                     Ordering::Equal
-                } else if line_change.line < self.start_tag_position_range.start().line {
+                } else if line_change.line <= self.start_tag_position_range.start().line {
+                    // A non-intersecting change in the first line of a multi-line start tag
+                    // precedes the rest of the tag.
                     Ordering::Less
                 } else {
                     Ordering::Greater
